@@ -675,9 +675,10 @@ func c14MemProbes(c *Ctx) {
 	must(m2.Update(ctx, []bs.WriteOperation{{FilePointerBytes: p, FileMetadata: md}}, nil))
 	inLock := make(chan struct{})
 	release := make(chan struct{})
+	var once sync.Once
 	bs.VerifSetPause(func(point string, a int64) {
 		if point == "mem.snap.locked" {
-			close(inLock)
+			once.Do(func() { close(inLock) })
 			<-release
 		}
 	})
@@ -685,7 +686,13 @@ func c14MemProbes(c *Ctx) {
 		for range m2.GetMaybeFilesForQuery(ctx, nil) {
 		}
 	}()
-	<-inLock
+	select {
+	case <-inLock:
+	case <-time.After(3 * time.Second):
+		bs.VerifSetPause(nil)
+		c.mismatch("c14-mem-lock", "MemoryMetaStore: GetMaybeFilesForQuery never reached the snapshot under the read lock (mem.snap.locked)", nil)
+		return
+	}
 	updDone := make(chan struct{})
 	go func() {
 		p2, md2 := mk(2)
